@@ -141,8 +141,13 @@ class Check:
             # no violation to report and a clause matched fewer constructs than confirmed by hand:
             # a vacuous pass is refused (exit 2).  With a violation in hand that is the answer (exit 1).
             cid, floor = short[0]
-            raise AnalysisError(f'{cid}: only {counts.get(cid, 0)} rule instances, floor is {floor} '
-                                f'(vacuous pass refused)')
+            if getattr(self, 'strict', True):
+                raise AnalysisError(f'{cid}: only {counts.get(cid, 0)} rule instances, floor is {floor} '
+                                    f'(vacuous pass refused)')
+            # a tree other than the pinned one: fewer constructs matched than on the pinned tree - say so, decide nothing
+            for cid, floor in short:
+                print(f'UNDECIDED property={self.prop_id} {cid} [rule instances] only {counts.get(cid, 0)} of the {floor} '
+                      f'constructs confirmed on the pinned tree were recognised in this tree')
         self.write_evidence(len(new), listed)
         return 1 if new else 0
 
